@@ -951,11 +951,19 @@ class PulseStorage(MutableMapping[str, Serializable]):
         try:
             if is_transaction_begin:
                 self._transaction_storage = dict()
+            elif identifier in self._transaction_storage:
+                # nested Serializable that was already collected during this transaction
+                if self._transaction_storage[identifier].serializable is serializable:
+                    return
+                raise RuntimeError('Identifier assigned twice with different objects', identifier)
 
             encoder = JSONSerializableEncoder(self, sort_keys=True, indent=4)
 
             serialization_data = serializable.get_serialization_data()
             serialized = encoder.encode(serialization_data)
+            if identifier in self._transaction_storage:
+                # one of the nested Serializables uses the identifier of the Serializable that contains it
+                raise RuntimeError('Identifier assigned twice with different objects', identifier)
             self._transaction_storage[identifier] = self.StorageEntry(serialized, serializable)
 
             if is_transaction_begin:
